@@ -10,7 +10,7 @@ package controller
 
 //@ func (*DefaultFanController).findClosestDistinctTarget
 //@   params (f, target)
-//@   props C12 C07
+//@   props C12 C07 C04
 //@   requires mapInv(f) && util.inInt32(target)
 //@   ensures[C12.nearest C01 C05] nearestIn(distinct(f), result, target)
 //@   ensures[C12.exact C01 C05]   (forall k :: 0 <= k && k < len(distinct(f)) && distinct(f)[k] == target ==> result == target)
@@ -32,7 +32,7 @@ package controller
 //@ ghost var setOK gmap[int]bool
 //@ func (*DefaultFanController).setPwm
 //@   params (f, target)
-//@   props C12 C07
+//@   props C12 C07 C04
 //@   ghostret setOK[f] := err == nil
 //@   ensures setOK[f] == (err == nil)
 //@   requires fans.fanWF(f.fan)
